@@ -43,12 +43,13 @@ type conf struct {
 	CID     bool // 4-byte connection IDs on both sides
 	Pad     uint // zero octets of record padding in the inner plaintext (RFC 9146 §4, RFC 8446 §5.4)
 	Short13 bool // DTLS 1.3 only: minimal unified header (S=0, L=0)
+	CBCPad  int  // CBC suites only: whole extra blocks of TLS padding (RFC 5246 6.2.3.2 allows up to 255 bytes; pion sends the minimum)
 	PLen    int  // payload length
 	S2C     bool // false: client writes, server receives
 }
 
 // RefSealed: the genuine record is produced by the reference record layer with the sender's keys.
-func (c conf) RefSealed() bool { return c.Pad > 0 || c.Short13 }
+func (c conf) RefSealed() bool { return c.Pad > 0 || c.Short13 || c.CBCPad > 0 }
 
 const cidLen = 4
 
@@ -70,6 +71,9 @@ func (c conf) Name() string {
 	short := ""
 	if c.Short13 {
 		short = "+short"
+	}
+	if c.CBCPad > 0 {
+		short += fmt.Sprintf("+cbcpad%d", c.CBCPad)
 	}
 	return fmt.Sprintf("%s/%s/%s/pad%d%s/len%d/%s", v, c.SC.Short, cid, c.Pad, short, c.PLen, dir)
 }
@@ -167,6 +171,15 @@ func allConfs(thorough bool) []conf {
 					c.S2C = true
 					out = append(out, c)
 				}
+			}
+		}
+		if isCBC(sc) {
+			// a conforming peer that pads generously: every bit of the padding blocks is ciphertext nothing but the
+			// padding check protects
+			for _, pb := range []int{3, 15} {
+				// (no connection-ID layout here: this library's CBC + CID MAC is the recorded finding F9, a reference
+				// record of that layout is not accepted to begin with)
+				out = append(out, conf{SC: sc, PLen: 17, CBCPad: pb}, conf{SC: sc, PLen: 100, CBCPad: pb})
 			}
 		}
 		if thorough {
